@@ -110,12 +110,8 @@ Definition time_to_us (t : ctime) : Z :=
        + Z.quot (u64 (ch t * 3600000000000)) 1000 + Z.quot (u64 (cmi t * 60000000000)) 1000
        + Z.quot (u64 (cs t * 1000000000)) 1000 + Z.quot (u64 (cns t)) 1000).
 
-(* MicrosecondsToTime (Fliegel / Van Flandern) on a uint64 *)
-Definition us_to_time (us : Z) : ctime :=
-  let nanoseconds := i64 (Z.rem us 1000000) * 1000 in
-  let secs := i64 (Z.quot us 1000000) in
-  let seconds := Z.rem secs 86400 in
-  let jD := Z.quot secs 86400 - 693961 in
+(* the date part of MicrosecondsToTime (Fliegel / Van Flandern): jD = days since 1900-01-01 *)
+Definition fliegel_date (jD : Z) : Z * Z * Z :=
   let l := jD + 68569 + 2415021 in
   let n := Z.quot (4 * l) 146097 in
   let l := l - Z.quot (146097 * n + 3) 4 in
@@ -126,5 +122,14 @@ Definition us_to_time (us : Z) : ctime :=
   let l := Z.quot m 11 in
   let m := m + 2 - 12 * l in
   let y := 100 * (n - 49) + y + l in
+  (y, m, d).
+
+(* MicrosecondsToTime on a uint64 *)
+Definition us_to_time (us : Z) : ctime :=
+  let nanoseconds := i64 (Z.rem us 1000000) * 1000 in
+  let secs := i64 (Z.quot us 1000000) in
+  let seconds := Z.rem secs 86400 in
+  let jD := Z.quot secs 86400 - 693961 in
+  let '(y, m, d) := fliegel_date jD in
   (* time.Date(y, m, d, 0, 0, 0, 0, UTC), then Add(nanoseconds), Add(seconds) *)
   time_of (days_of_civil y m d) (nanoseconds + seconds * 1000000000).
